@@ -68,6 +68,24 @@ Section Run.
         do out <- run_prof chk (snd fs) hist' rest;
         Ok (fst (fst out), response :: snd (fst out), snd out)
     end.
+
+  (** The same run, keeping what was forwarded and answered before a panic:
+      the method panics (debug tally overflow) *before* its inner call, so
+      nothing is forwarded for the panicking request or after it. *)
+  Fixpoint run_prof_trace (chk : bool) (slot : option info) (hist : list req) (reqs : list req)
+    : list req * list resp * res (option info) :=
+    match reqs with
+    | [] => (hist, [], Ok slot)
+    | r :: rest =>
+        match profiler_step chk slot r with
+        | Panic p => (hist, [], Panic p)
+        | Ok fs =>
+            let hist' := hist ++ [fst fs] in
+            let response := inner hist' in
+            let out := run_prof_trace chk (snd fs) hist' rest in
+            (fst (fst out), response :: snd (fst out), snd out)
+        end
+    end.
 End Run.
 
 (** * Boolean specification (evaluated on what the mock inner allocator
